@@ -13,8 +13,8 @@ from vlib.runner import Check, ShardResult, Failure
 from vlib import archlab
 from checks import c15
 
-PARTS_Q = {"x86_32": 6, "x86_64": 8, "x86_16": 4, "arml": 3, "armb": 1, "armtl": 4, "armtb": 1, "aarch64l": 3,
-           "aarch64b": 1, "mips32l": 1, "mips32b": 2, "ppc32b": 1, "msp430": 4, "mepb": 3, "mepl": 1}
+PARTS_Q = {"x86_32": 2, "x86_64": 3, "x86_16": 1, "arml": 2, "armb": 1, "armtl": 4, "armtb": 1, "aarch64l": 4,
+           "aarch64b": 1, "mips32l": 1, "mips32b": 2, "ppc32b": 2, "msp430": 3, "mepb": 2, "mepl": 1}
 PARTS_T = {"x86_32": 40, "x86_64": 48, "x86_16": 32, "arml": 16, "armb": 12, "armtl": 12, "armtb": 10,
            "aarch64l": 14, "aarch64b": 12, "mips32l": 6, "mips32b": 6, "ppc32b": 4, "msp430": 8, "mepb": 6,
            "mepl": 6}
